@@ -55,7 +55,7 @@ class World:
         env["NO_COLOR"] = "1"
         return env
 
-    def play(self, ops, probe_keys=(), timeout=600):
+    def play(self, ops, probe_keys=(), timeout=1500):
         """Run all ops in ONE process; returns the list of step records (shorter when the process died)."""
         n = next(self._n)
         job = os.path.join(self.jobs, "job%d.json" % n)
@@ -76,7 +76,7 @@ class World:
                         steps.append(json.loads(line))
         return steps, rc, err
 
-    def play_fresh(self, ops, probe_keys=(), workers=4):
+    def play_fresh(self, ops, probe_keys=(), workers=3):
         """Each op in its own fresh process (in parallel); returns one step record per op."""
         if not ops:
             return []
